@@ -789,6 +789,17 @@ func engGen(c *runCtx, run func([]string)) {
 				g.hdr[o] = fmt.Sprintf("k=lock t=%d exp=%d", t, exp())
 			}
 		}
+		if c.rng.IntN(3) == 0 {
+			// two locks of ONE object with different lifetimes, the lock with the smaller id expiring first (or last):
+			// the object stays protected while ANY of its locks is alive
+			t := 1 + c.rng.IntN(4)
+			e1, e2 := 1+c.rng.IntN(3), []int{0, 4, 5, 6}[c.rng.IntN(4)]
+			if c.rng.IntN(3) == 0 {
+				e1, e2 = e2, e1
+			}
+			g.hdr[7] = fmt.Sprintf("k=lock t=%d exp=%d", t, e1)
+			g.hdr[8] = fmt.Sprintf("k=lock t=%d exp=%d", t, e2)
+		}
 		ops := []string{fmt.Sprintf("eng init n=%d thr=%d", g.n, thr)}
 		epoch := 0
 		nops := 8 + c.rng.IntN(25)
